@@ -148,6 +148,26 @@ fn criterion_of(s: &str) -> SplitCriterion {
     }
 }
 
+/// the element types the checks run at; the restore step is written against the concrete types (see c12.rs)
+pub trait Elem: RealNumber + Serialize + serde::de::DeserializeOwned + Send + 'static {
+    fn restore_clf(bytes: &[u8], value: &Value, how: u8) -> Result<RandomForestClassifier<Self>, String>;
+    fn restore_reg(bytes: &[u8], value: &Value, how: u8) -> Result<RandomForestRegressor<Self>, String>;
+}
+macro_rules! elem {
+    ($t:ty) => {
+        impl Elem for $t {
+            fn restore_clf(bytes: &[u8], value: &Value, how: u8) -> Result<RandomForestClassifier<$t>, String> {
+                if how == 1 { bincode::deserialize(bytes).map_err(|e| e.to_string()) } else { serde_json::from_value(value.clone()).map_err(|e| e.to_string()) }
+            }
+            fn restore_reg(bytes: &[u8], value: &Value, how: u8) -> Result<RandomForestRegressor<$t>, String> {
+                if how == 1 { bincode::deserialize(bytes).map_err(|e| e.to_string()) } else { serde_json::from_value(value.clone()).map_err(|e| e.to_string()) }
+            }
+        }
+    };
+}
+elem!(f32);
+elem!(f64);
+
 /// everything one fit produces, in comparable form
 #[derive(Clone, Debug, PartialEq)]
 struct FitOut {
@@ -185,7 +205,7 @@ fn fit_once(case: &Case, ambient: &Option<TapeSpec>) -> (FitOut, Option<Box<dyn 
     }
 }
 
-fn fit_once_t<T: RealNumber + Serialize + serde::de::DeserializeOwned + Send + 'static>(case: &Case, ambient: &Option<TapeSpec>) -> (FitOut, Option<Box<dyn std::any::Any + Send>>) {
+fn fit_once_t<T: Elem>(case: &Case, ambient: &Option<TapeSpec>) -> (FitOut, Option<Box<dyn std::any::Any + Send>>) {
     let x: DenseMatrix<T> = mat_t(&case.x);
     let yt: Vec<T> = case.y.iter().map(|v| T::from_f64(*v).unwrap()).collect();
     let mut q = case.x.clone();
@@ -273,11 +293,7 @@ fn fit_once_t<T: RealNumber + Serialize + serde::de::DeserializeOwned + Send + '
                     }
                 }
                 if case.roundtrip > 0 && out.err.is_none() {
-                    let restored: Result<RandomForestClassifier<T>, String> = if case.roundtrip == 1 {
-                        bincode::deserialize(&out.bytes).map_err(|e| e.to_string())
-                    } else {
-                        serde_json::from_value(out.value.clone()).map_err(|e| e.to_string())
-                    };
+                    let restored: Result<RandomForestClassifier<T>, String> = T::restore_clf(&out.bytes, &out.value, case.roundtrip);
                     match restored {
                         Err(e) => out.restore_err = Some(e),
                         Ok(m2) => match guarded(|| (m2.predict(&qm).map(to64), if case.params.keep_samples { Some(m2.predict_oob(&x).map(to64)) } else { None })) {
@@ -361,11 +377,7 @@ fn fit_once_t<T: RealNumber + Serialize + serde::de::DeserializeOwned + Send + '
                     }
                 }
                 if case.roundtrip > 0 && out.err.is_none() {
-                    let restored: Result<RandomForestRegressor<T>, String> = if case.roundtrip == 1 {
-                        bincode::deserialize(&out.bytes).map_err(|e| e.to_string())
-                    } else {
-                        serde_json::from_value(out.value.clone()).map_err(|e| e.to_string())
-                    };
+                    let restored: Result<RandomForestRegressor<T>, String> = T::restore_reg(&out.bytes, &out.value, case.roundtrip);
                     match restored {
                         Err(e) => out.restore_err = Some(e),
                         Ok(m2) => match guarded(|| (m2.predict(&qm).map(to64), if case.params.keep_samples { Some(m2.predict_oob(&x).map(to64)) } else { None })) {
